@@ -199,7 +199,8 @@ def main(ck):
                             'compare': {'exc_args': False, 'log': True}, 'expected': m['exp'], 'observed': m['got']})
         for c in res.crashes:
             fn = fmap[c['case']['f']][1]
-            ck.discrepancy('crash:%s' % ('exception-raising-subject-hook' if re.search(r'M\.(LARaise|MapGetRaise|EqRaise)\(', c['case']['a']) else 'kinds=' + '+'.join(fn['kinds'])), 'crash/hang %s in %s on %s' % (c['kind'], fn['src'], c['case']['a']),
+            ck.discrepancy('crash:%s' % ('exception-raising-subject-hook' if re.search(r'M\.(LARaise|MapGetRaise|EqRaise)\(', c['case']['a']) else
+                                       'or-of-values-as-sub-pattern' if 'or-of-values' in fn.get('features', []) else 'kinds=' + '+'.join(fn['kinds'])), 'crash/hang %s in %s on %s' % (c['kind'], fn['src'], c['case']['a']),
                            {'module_source': matchgen.PREAMBLE + '\n\n' + fn['src'], 'ext': '.py', 'case': c['case'], 'setup': SETUP,
                             'stderr': c['stderr']})
         for ft in res.fatal:
